@@ -673,6 +673,14 @@ def check_C01(ctx):
 
 def check_C02(ctx):
     family_a(ctx, {"extra": [("card", 45), ("early", 45), ("gc", 12)]})
+    # "every way the response can be cut short": recorded real replies (a stream's
+    # and a unary call's) cut at every byte offset must never be a success
+    # (Framing!ChkCut, the same cases as in C07's check)
+    cuts = [{"fam": "cutgen", "k": k, "big": False} for k in ([1, 3] if ctx.quick else [0, 1, 2, 3, 5])]
+    cuts += [{"fam": "cutgen", "unary": True, "k": 1, "big": b} for b in (False, True)]
+    l2_stateless(ctx, "Framing", "framing",
+                 "recorded real reply bodies of a stream and of a unary call cut at every byte offset, fed to the real clients",
+                 expr="{}", extra_cases=cuts, chk="ChkAny", sig_keys=("fam", "kind", "cut"))
 
 
 def check_C03(ctx):
@@ -785,12 +793,14 @@ def check_C14(ctx):
 def check_C07(ctx):
     ks = [0, 1, 3] if ctx.quick else [0, 1, 2, 3, 5, 8]
     extra = [{"fam": "cutgen", "k": k, "big": False} for k in ks] + [{"fam": "cutgen", "k": 3, "big": True}]
+    extra += [{"fam": "cutgen", "unary": True, "k": 1, "big": b} for b in (False, True)]
     l2_stateless(ctx, "Framing", "framing",
                  "all abstract tapes of Framing!Cases (0..2 complete messages, then nothing / every partial prefix / every "
                  "size class incl. 0, the 100 MiB limit, limit+1, 2^31-1, -2^31, trailer, over-long trailer / a valid or "
                  "undecodable trailer / junk after the trailer; clean and abrupt endings) materialised as bytes and decoded "
                  "by the real client stream (replaying RoundTripper) and the real server stream (crafted request body, "
-                 "streaming and single-request); plus recorded real reply bodies cut at every byte offset",
+                 "streaming and single-request); plus recorded real reply bodies -- of a stream and of a unary call -- cut at "
+                 "every byte offset",
                  extra_cases=extra, chk="ChkAny", sig_keys=("fam", "side", "ending"))
     ctx.assumptions += ["allocation is measured as the delta of runtime.MemStats.TotalAlloc around the decode and compared "
                         "with the 100 MiB per-message limit plus 32 MiB slack",
